@@ -269,7 +269,7 @@ fn rich_program() -> Program {
         isteps.push(ImgStep::Rep(vis));
         calls.push(Call::Img { guid: format!("img-{k}"), steps: isteps, end: SubEnd::Finalize });
     }
-    Program { guid: "file-guid".into(), calls, end: End::Finalize, knob: None }
+    Program { guid: "file-guid".into(), calls, end: End::Finalize, knob: None, on_error: OnError::Stop }
 }
 
 impl Untrusted {
@@ -665,11 +665,12 @@ fn regression_cases() -> Vec<(String, Case)> {
     let prog = Program {
         guid: "file".into(),
         calls: vec![
-            Call::Blob { data: Bytes { len: 100, seed: 3, pat: 0 }, pipe: Chunk::Full },
+            Call::Blob { data: Bytes { len: 100, seed: 3, pat: 0 }, pipe: Chunk::Full, fail_after: None },
             Call::Pc { guid: "pc".into(), proto, steps: vec![PcStep::Points { n: 20, seed: 5 }], end: SubEnd::Finalize },
         ],
         end: End::Finalize,
         knob: None,
+        on_error: OnError::Stop,
     };
     let base = Case { prog, source: Source::Writer, plan: Plan { muts: vec![], sealed: true, media: vec![] }, opts: DEFAULT_OPTS, blob_probes: vec![], apply_after: None, rchunk: Chunk::Full, xml_pairs: None };
     vec![
